@@ -48,40 +48,62 @@ impl<T: 'static> VerifLocal<T> {
     }
 }
 
-// The two callbacks are resolved at link time (no function pointers: a solver back end has to
-// consider every address-taken function of a compatible signature as the target of an indirect
-// call). A crate that enables `verif-hooks` must define both symbols.
-extern "Rust" {
-    /// Called in place of the coroutine switch at every scheduling point (`thread::switch`) while
-    /// interception is enabled.
-    fn shuttle_verif_on_switch();
-    /// Performs one step of the task with the given id in place of resuming its coroutine; returns
-    /// true if the task finished.
-    fn shuttle_verif_resume(task_id: usize) -> bool;
+/// What the engine records for the harnesses in place of switching coroutines. (Plain counters:
+/// callbacks would have to be function pointers or link-time symbols, neither of which the solver
+/// tool chain handles well.)
+#[derive(Debug)]
+pub struct Recorder {
+    /// whether `thread::switch()` is intercepted (counted, no scheduling, no suspension)
+    pub intercept: bool,
+    /// number of intercepted `thread::switch()` calls
+    pub switches: usize,
+    /// how often the execution loop resumed each task (index = task id, up to 8 tasks)
+    pub resumed: [usize; 8],
+    pub resumed_total: usize,
+    /// what a resumed task's step reports: true = the task finished, false = it yielded
+    pub step_finishes: bool,
 }
 
-struct Flag(UnsafeCell<bool>);
+struct RecorderCell(UnsafeCell<Recorder>);
 // Safety: harnesses are single threaded.
-unsafe impl Sync for Flag {}
-static INTERCEPT: Flag = Flag(UnsafeCell::new(false));
+unsafe impl Sync for RecorderCell {}
 
-/// Enable or disable the interception of `thread::switch`. While enabled, `switch()` calls
-/// `shuttle_verif_on_switch` and returns instead of consulting the scheduler and suspending.
+static RECORDER: RecorderCell = RecorderCell(UnsafeCell::new(Recorder {
+    intercept: false,
+    switches: 0,
+    resumed: [0; 8],
+    resumed_total: 0,
+    step_finishes: false,
+}));
+
+/// Access the recorder (harness side).
+pub fn recorder() -> &'static mut Recorder {
+    // Safety: single threaded; harnesses do not hold the reference across engine calls
+    unsafe { &mut *RECORDER.0.get() }
+}
+
+/// Enable or disable the interception of `thread::switch`.
 pub fn set_switch_interception(on: bool) {
-    unsafe { *INTERCEPT.0.get() = on };
+    recorder().intercept = on;
 }
 
 /// Called first thing in `thread::switch`. Returns true if the switch was intercepted.
 pub fn intercept_switch() -> bool {
-    if unsafe { *INTERCEPT.0.get() } {
-        unsafe { shuttle_verif_on_switch() };
+    let r = recorder();
+    if r.intercept {
+        r.switches += 1;
         true
     } else {
         false
     }
 }
 
-/// Called by the execution loop in place of `continuation.resume()`.
+/// Called by the execution loop in place of `continuation.resume()`: the task's step is empty.
 pub fn resume(task_id: usize) -> bool {
-    unsafe { shuttle_verif_resume(task_id) }
+    let r = recorder();
+    if task_id < r.resumed.len() {
+        r.resumed[task_id] += 1;
+    }
+    r.resumed_total += 1;
+    r.step_finishes
 }
